@@ -33,7 +33,7 @@ func init() {
 		}
 		sizes := []comb{{300, false}, {5000, true}, {33000, false}, {17000, true}}
 		if c.thorough() {
-			sizes = append(sizes, comb{66000, false}, comb{40000, true}, comb{32768, false}, comb{32769, false}, comb{16384, true}, comb{16385, true})
+			sizes = append(sizes, comb{66000, false}, comb{30000, true}, comb{32768, false}, comb{32769, false}, comb{16384, true}, comb{16385, true})
 		}
 		for it, cb := range sizes {
 			T, through := cb.T, cb.through
